@@ -137,7 +137,7 @@ fn data(name: u8, from: usize, len: usize, generation: u8) -> Vec<u8> {
 }
 
 #[derive(Debug, Clone, PartialEq, Eq)]
-struct RInfo {
+pub(crate) struct RInfo {
     name: String,
     index: usize,
     start: usize,
@@ -148,7 +148,7 @@ struct RInfo {
 }
 
 #[derive(Debug, Clone, PartialEq, Eq)]
-struct Snapshot {
+pub(crate) struct Snapshot {
     file_len: usize,
     real_file_len: u64,
     regions_file_len: u64,
@@ -162,7 +162,7 @@ struct Snapshot {
     layout_len: usize,
 }
 
-fn snapshot(db: &Database, dir: &Path) -> Snapshot {
+pub(crate) fn snapshot(db: &Database, dir: &Path) -> Snapshot {
     let regions_guard = db.regions();
     let mut regions = Vec::new();
     for r in regions_guard.index_to_region().iter().flatten() {
@@ -213,7 +213,7 @@ fn snapshot(db: &Database, dir: &Path) -> Snapshot {
 }
 
 /// C02 invariants on a snapshot. Returns (divergence kind, detail) pairs.
-fn layout_problems(s: &Snapshot) -> Vec<(String, String)> {
+pub(crate) fn layout_problems(s: &Snapshot) -> Vec<(String, String)> {
     let mut out = Vec::new();
     let mut p = |k: &str, d: String| out.push((k.to_string(), d));
     if s.file_len as u64 != s.real_file_len {
